@@ -489,6 +489,26 @@ fn other_paths(out: &mut Out, name: &str, enc: usize, data: &[u8], reference: &M
             let _ = std::fs::remove_file(&p);
         }
     }
+    // from_path on a path that is not a regular file (a pipe reached through /proc/self/fd):
+    // its metadata reports length 0 whatever it delivers
+    if let Ok((rd, mut wr)) = std::io::pipe() {
+        use std::io::Write as _;
+        use std::os::fd::AsRawFd;
+        let p = format!("/proc/self/fd/{}", rd.as_raw_fd());
+        if std::path::Path::new(&p).exists() {
+            let bytes = data.to_vec();
+            let t = std::thread::spawn(move || {
+                let _ = wr.write_all(&bytes);
+            });
+            let got = guarded(|| rosu_map::from_path::<Beatmap>(&p));
+            drop(rd);
+            let _ = t.join();
+            out.oracle_checks += 1;
+            if let Some(x) = diff_results(reference, &got) {
+                out.fail("", &d("from_path on a pipe (/proc/self/fd/N)"), &x);
+            }
+        }
+    }
     for c in 1..=16usize {
         let got = guarded(|| Beatmap::decode(BufReader::with_capacity(c, data)));
         out.oracle_checks += 1;
